@@ -1,5 +1,9 @@
 """C01 — in-circuit STARK verification agrees with native verification.
 
+(also: prover-side forgeries — proofs of false statements made by an adversarial prover, the input region
+in which a single algebraic check (OOD identity, cross-AIR terminal sum) is the only one that fails; see
+`rule` in the coverage and design_notes/C01.md)
+
 Plug-in for bin/check (see bin/checks.py). One harness run (`p3r-harness starkfaults`):
 real uni-STARK / batch-STARK proofs (BabyBear and KoalaBear; preprocessed columns, lookups, ZK,
 two FRI parameter sets), the real native verifier and the real verification circuit on the honest
@@ -32,13 +36,16 @@ def run(ctx):
         rp = json.load(open(ctx["replay"]))
         os.makedirs(f"{work}/replay_corpus", exist_ok=True)
         json.dump(rp.get("replay", rp), open(f"{work}/replay_corpus/r.json", "w"))
-        corpus, generate, per_kind, values = f"{work}/replay_corpus", 0, 1, 1
+        corpus, generate, per_kind, values, forge_all = f"{work}/replay_corpus", 0, 1, 1, 0
     else:
         corpus, generate = f"{ctx['root']}/corpus/c01", 1
         # quick: every position, one altered value; thorough: every position, up to 4 altered values
         per_kind, values = (0, 1) if tier == "quick" else (0, 4)
+        # prover-side forgeries: quick = every trace cell / public value / terminal forgery of every batch target
+        # (+1), thorough = additionally a seeded random delta per cell and more auxiliary / quotient cells
+        forge_all = 1 if tier == "quick" else 2
     cmd = [ctx["harness"], "starkfaults", "--seed", str(seed), "--per-kind", str(per_kind), "--values", str(values),
-           "--out", out, "--corpus", corpus, "--generate", str(generate)]
+           "--out", out, "--corpus", corpus, "--generate", str(generate), "--forge-all", str(forge_all)]
     rc, o = ctx["sh"](cmd, timeout=7200)
     empty = {"evaluations": 0, "distinct_nontrivial": 0, "rule": "", "samples": [], "input_distribution": {},
              "traces_validated_against_impl": 0, "disagreements_checked": 0}
@@ -77,6 +84,16 @@ def run(ctx):
                                               "first_difference": list(first), "impl_line": a, "model_line": b},
                                    "no_input": True})
     hist = rep["hist"]
+    # the forgery campaign must keep its teeth: some forged proof must be rejected natively by the terminal-sum
+    # check and some by an out-of-domain check (otherwise those checks are no longer exercised in the circuit)
+    forged_native = {k[len("forge-native:"):]: v for k, v in hist.items() if k.startswith("forge-native:")}
+    if generate:
+        for needle in ("TerminalSumNonZero", "OodEvaluationMismatch"):
+            if not any(needle in k for k in forged_native):
+                violations.append({"class": f"forge-campaign-lost-power:{needle}",
+                                   "what": f"no forged proof is rejected natively with {needle}: the prover-side forgeries no "
+                                           f"longer exercise that check (native verdicts seen: {forged_native})",
+                                   "replay": {"cmd": cmd}, "no_input": True})
     cov = {"evaluations": rep["evaluations"], "distinct_nontrivial": rep["distinct"],
            "rule": "one evaluation = one (proof, public values, verifying data) triple judged by the real native verifier and by "
                    "the real verification circuit (build + pack_values + runner); distinct = distinct altered positions "
@@ -84,7 +101,19 @@ def run(ctx):
                    "altered value = old+1, else old-1; thorough also a seeded random field element and 0); shape "
                    "parameters (degree bits, FRI log-arities, preprocessed metadata) are judged with the circuit rebuilt from "
                    "the altered proof, which kinds are shape parameters is detected per kind by judging the first position both "
-                   "ways; every position is non-trivial (it changes the verifier's input)",
+                   "ways; every position is non-trivial (it changes the verifier's input). "
+                   "Plus prover-side forgeries on every batch target (incl. batches with global / local LogUp lookups "
+                   "next to lookup-free instances): an adversarial prover (harness/src/c01_forge_prover.rs = "
+                   "p3_batch_stark::prove_batch without its debug-only self-checks, byte-identical on honest "
+                   "witnesses, checked each run) proves a FALSE statement — one trace cell / public value off by a "
+                   "delta, a shifted lookup terminal (sum-preserving pair or single), an altered cell of the LogUp "
+                   "auxiliary trace or of the quotient — so every transcript- and Merkle-bound value is consistent "
+                   "and exactly one algebraic check (OOD identity of one instance / cross-AIR terminal sum) decides; "
+                   "one evaluation = one forged proof judged natively, by a circuit rebuilt for it and by the honest "
+                   "proof's circuit; distinct = distinct forgery ids per target",
+           "forged_native_verdicts": forged_native,
+           "forged_proofs": sum(t.get("forged_proofs") or 0 for t in rep["targets"]),
+           "forgeries_refused_by_prover": sum(t.get("forgeries_refused_by_prover") or 0 for t in rep["targets"]),
            "samples": rep["samples"][:6], "input_distribution": hist,
            "targets": rep["targets"],
            "positions_skipped_altered_value_does_not_deserialise": rep.get("skipped_deser", 0),
@@ -103,6 +132,9 @@ CHECK = {
         "P3R.C01.observe_opened_zk", "P3R.C01.observe_opened_nozk", "P3R.C01.fri_events_equal",
         "P3R.C01.every_element_checked", "P3R.C01.pow_witness_bound",
         "P3R.C01.verdict_agree", "P3R.C01.batch_verdict_agree",
+        "P3R.C01.terminal_mem_present", "P3R.C01.terminal_sum_checked", "P3R.C01.ood_checked",
+        "P3R.C01.failing_check_rejected", "P3R.C01.unbalanced_bus_rejected",
+        "P3R.Witness.C01.bus_mixed_terminal_sum",
         "P3R.Witness.C01.uni_zk_scripts_equal", "P3R.Witness.C01.uni_nonext_scripts_equal",
         "P3R.Witness.C01.uni_scripts_equal_full_false",
         "P3R.Witness.C01.batch_scripts_equal_full_false", "P3R.Witness.C01.witnesses_falsify_wf",
@@ -117,6 +149,10 @@ CHECK = {
         "model-circuit = model-native (theorem); the circuit's own observe calls are not logged (CircuitChallenger is a "
         "concrete type inside verify_*_circuit)",
         "serde_json round trip of proofs (positions whose altered value does not deserialise are skipped and counted)",
+        "the adversarial prover harness/src/c01_forge_prover.rs (copy of p3_batch_stark::prove_batch / "
+        "p3_uni_stark::prove_with_preprocessed 0.6.3 without the debug-only self-checks, plus hooks): it only has to "
+        "produce proofs; that it has not drifted from the stock provers is checked on every run (byte-identical proof on "
+        "the honest witness, else class forge-prover-drift)",
     ],
     "assumptions": [
         "WFUni (theorem hypothesis): if the AIR has preprocessed columns it opens their next row (hiding PCS allowed since "
@@ -142,7 +178,11 @@ MANIFEST_ENTRY = {
     "engine": "lean-models",
     "technique": "Lean 4 theorems over a verifier-script model (transcript events + checks per proof shape, native vs circuit) "
                  "+ exhaustive single-element fault enumeration on real proofs (native verdict vs circuit outcome) "
-                 "+ differential correspondence of the model with the recorded native transcript",
+                 "+ prover-side forgeries (an adversarial copy of the p3 provers proves false statements: every algebraic "
+                 "check — OOD identity per instance, cross-AIR LogUp terminal sum — is made the only failing one; native "
+                 "verdict vs circuit outcome) "
+                 "+ differential correspondence of the model with the recorded native transcript and with the checks seen "
+                 "decisive on forged proofs",
     "level_claimed": {
         "category": "proof",
         "text": "for every proof shape (any number of instances, widths, chunk counts, lookups, preprocessed columns, ZK, FRI "
@@ -155,5 +195,7 @@ MANIFEST_ENTRY = {
     },
     "level_note": "Lean kernel + 3 standard axioms; composition level only (components are other properties); the model's "
                   "circuit side is tied to the code indirectly (see trusted base); fault enumeration covers every numeric "
-                  "leaf of 20 real proofs (26 targets) but only single-element alterations and tiny FRI parameters",
+                  "leaf of 30 real proofs (36 targets; single-element alterations) and ~1200 forged proofs of false statements "
+                  "(trace / public value / terminal / auxiliary trace / quotient) on the 30 accepted targets; tiny FRI "
+                  "parameters; FRI-internal forgeries (inconsistent folding) are not produced (C07)",
 }
